@@ -23,6 +23,11 @@ CHECKS = {
   note="Trusted: go/ssa; callbacks and event handlers are assumed not to re-enter the controller; time.AfterFunc fires after the given delay.",
   tech="static analysis: finite-domain disjunctive dataflow (property simulation) over go/ssa extracting the controller's transition relation",
   ref="DESIGN.md §2 C14"),
+ "C16": dict(
+  text="For each modelled termination function (DHCPv4 release/decline/expiry, PPPoE PADT / LCP terminate / idle sweep / teardown.cleanup, subscriber TerminateSession, DHCPv6 release) a finite-domain disjunctive dataflow over its SSA (same-package callees summarised, goroutine closures scanned; guards on the resource's own handle recorded as atoms, every other condition explored both ways) yields the exit configurations; in every configuration that claimed the session, each resource establishment can acquire (address, NAT block, QoS policy, MAC/VLAN/circuit-id fast-path entries, secondary indexes, Accounting-Stop) must have been released or its handle shown absent; releases happen only on claiming paths; the claim's lookup and removal are one critical section (or a test-and-set claim flag); other termination entry points must reach a modelled function. Decides the release matrix on all paths of those functions; does not decide idempotence of the callee releases or interleavings beyond claim atomicity.",
+  note="Trusted: go/ssa; the resource table in engines/c16.go (acquire/release pairs and handle guards confirmed by reading); callbacks registered elsewhere are checked only where listed (onExpire).",
+  tech="static analysis: path-sensitive finite-domain dataflow (property simulation) for must-release on all claiming paths + lock-hold (must-held) analysis for claim atomicity + call-graph reachability",
+  ref="DESIGN.md §2 C16, §1.3 E5"),
 }
 NA = {}
 def main():
